@@ -540,6 +540,26 @@ static bool has_ldouble(Type *ty) {
   return ty->kind == TY_LDOUBLE;
 }
 
+// Returns true if `ty` is a struct, union or array that consists of
+// one long double and nothing else: class X87, returned in %st(0).
+static bool is_x87_aggregate(Type *ty) {
+  if (ty->size != 16)
+    return false;
+
+  if (ty->kind == TY_STRUCT || ty->kind == TY_UNION) {
+    if (!ty->members)
+      return false;
+    for (Member *mem = ty->members; mem; mem = mem->next)
+      if (mem->ty->kind != TY_LDOUBLE && !is_x87_aggregate(mem->ty))
+        return false;
+    return true;
+  }
+
+  if (ty->kind == TY_ARRAY)
+    return ty->base->kind == TY_LDOUBLE || is_x87_aggregate(ty->base);
+  return false;
+}
+
 // How va_arg fetches a value of type `ty` (the __builtin_reg_class of
 // <stdarg.h>): 0 from a general-purpose register, 1 from a vector
 // register, 2 from memory. A struct or union that is passed in
@@ -747,6 +767,11 @@ static void copy_ret_buffer(Obj *var) {
   if (ty->size == 0)
     return;
 
+  if (is_x87_aggregate(ty)) {
+    println("  fstpt %d(%%rbp)", var->offset);
+    return;
+  }
+
   if (has_flonum1(ty)) {
     assert(ty->size == 4 || 8 <= ty->size);
     if (ty->size == 4)
@@ -786,6 +811,11 @@ static void copy_struct_reg(void) {
 
   if (ty->size == 0)
     return;
+
+  if (is_x87_aggregate(ty)) {
+    println("  fldt (%%rax)");
+    return;
+  }
 
   println("  mov %%rax, %%rdi");
 
